@@ -25,6 +25,7 @@ SPEC = {
         "Sema.Compose.Compose_hybrid_state", "Sema.Compose.Compose_hybrid",
     ],
     "trusted_base": [
+        "SemaModel/Compose/RankModel.lean (the combined model extended by the ranking indexes: per vectorFlat entry the set of (node id, vector) pairs, per text entry C05's index, both fed by the same change stream; C04's flat search, C05's text search and C02's filter leaves under C06's searchParallel / back-fill / paging) is tied to the code by a third correspondence run: the compiled model (`semadriver C02 rank`) answers histories on real shards with an integer, a vectorFlat (2-d integer grid, squared Euclidean: exact, ties frequent) and a text index (tokens from the real bleve analyser, idf table from Go's math.Log10) — every write, a dump of the flat bucket and of the text postings after every batch, plain and hybrid `searchr` requests compared modulo ties (groups of equal hybrid score; a tie cut by a plain query's limit by size only); vectors, distances, scores and weights are abstract in every theorem, the driver instantiates them with grid coordinates, exact naturals and IEEE float32 bit patterns; quantizer none, vector dimension = index dimension (C18), rejected batches are not in this stream",
         "SemaModel/Compose/Model.lean (the combined model: C01's point store + C02's indexes + C06's answer pipeline; new in it: the change stream of a batch, the index verdict, one write step for both, searchPoints) is tied to the code by a second correspondence run: the compiled combined model (`semadriver C02 compose`) answers every op line of the same histories — allocating the node ids itself, compared with the ones the shard allocated — plus `searchx` lines (select / sort / offset / limit through the whole SearchPoints pipeline); a stored top-level value is opaque text in the point store and is read by two parameters (Conv.idx, Conv.sel) — theorems hold for every such pair, the driver's pair is the value syntax of the op lines",
         "SemaModel/C02/Model.lean is a hand transcription of inverted.go, string.go, array.go, dispatch.go/utils.go (getOperation, casts) and search.go; tied to the code by the correspondence run only (answers and bucket dumps)",
         "roaring bitmaps are finite sets of node ids (CheckedAdd/CheckedRemove/FastOr/FastAnd/IsEmpty/ToBytes/ReadFrom trusted); the stored bytes are modelled as the concatenated little-endian ids",
